@@ -951,3 +951,57 @@ mod tests {
         assert!(full_error.contains("failed writing just-read submission state to disk at"));
     }
 }
+
+/// Add-only accessors for the `verif` facade (`crate::verif`): reads the submission state file
+/// with the real [`State::read`] and exposes what it contains.
+#[cfg(feature = "verif")]
+pub(super) mod verif_hooks {
+    use std::path::Path;
+
+    use astria_eyre::eyre;
+
+    use super::{
+        State,
+        StateFilePath,
+    };
+
+    pub(crate) enum StateView {
+        Fresh,
+        Started {
+            last_celestia_height: u64,
+            last_sequencer_height: u64,
+        },
+        Prepared {
+            sequencer_height: u64,
+            last_celestia_height: u64,
+            last_sequencer_height: u64,
+            blob_tx_hash: String,
+        },
+    }
+
+    /// The real `State::read` (parse + sanity check), without the write-back that
+    /// `SubmissionStateAtStartup::new_from_path` performs.
+    pub(crate) async fn read(path: &Path) -> eyre::Result<StateView> {
+        let state = State::read(&StateFilePath(path.to_path_buf())).await?;
+        Ok(match state {
+            State::Fresh => StateView::Fresh,
+            State::Started {
+                last_submission,
+            } => StateView::Started {
+                last_celestia_height: last_submission.celestia_height,
+                last_sequencer_height: last_submission.sequencer_height.value(),
+            },
+            State::Prepared {
+                sequencer_height,
+                last_submission,
+                blob_tx_hash,
+                ..
+            } => StateView::Prepared {
+                sequencer_height: sequencer_height.value(),
+                last_celestia_height: last_submission.celestia_height,
+                last_sequencer_height: last_submission.sequencer_height.value(),
+                blob_tx_hash: blob_tx_hash.to_hex(),
+            },
+        })
+    }
+}
